@@ -107,7 +107,7 @@ def run(ck: Check) -> None:
     from .. import impl
 
     rng = ck.rng
-    nh = 120 if ck.thorough else 30
+    nh = ck.n(120, 30)
     tmp = os.path.join(impl.scratch_dir(), "trusted.root.json")
     ck.correspondences.add("corr:root-chain-client/verdict-sequence+final-root")
     hists = []
